@@ -203,6 +203,43 @@ def _memop(rng, pool, aligned, base_reg=31, window=64):
     return {"m": m, "rs1": base_reg, "rs2": rng.choice(pool), "imm": off}
 
 
+def _coincidence(rng, work, aligned=True):
+    """value coincidences: two independent quantities that happen to be equal or related"""
+    rx, ry, rz = rng.choice(work), rng.choice(work), rng.choice(work)
+    off = rng.randrange(0, 60, 4)
+    k = rng.randrange(9)
+    if k == 0:
+        # a word that holds its own address, read back and used as a pointer
+        return [{"m": "addi", "rd": rx, "rs1": 31, "imm": off}, {"m": "sw", "rs1": 31, "rs2": rx, "imm": off}, {"m": "lw", "rd": ry, "rs1": rx, "imm": 0}, {"m": "lw", "rd": rz, "rs1": ry, "imm": 0}]
+    if k == 1:
+        # the same store twice (a silent store), then the load
+        st = {"m": rng.choice(ST), "rs1": 31, "rs2": rx, "imm": off}
+        return [st, dict(st), {"m": "lw", "rd": ry, "rs1": 31, "imm": off}]
+    if k == 2:
+        # store of the value the word already holds (just loaded), a different store to the neighbour, load both
+        return [{"m": "lw", "rd": ry, "rs1": 31, "imm": off}, {"m": "sw", "rs1": 31, "rs2": ry, "imm": off}, {"m": "sb", "rs1": 31, "rs2": rx, "imm": off + 4}, {"m": "lw", "rd": rz, "rs1": 31, "imm": off}, {"m": "lw", "rd": rx, "rs1": 31, "imm": off + 4}]
+    if k == 3:
+        # a register that holds its own number / the number of the other operand; shift amounts equal to register numbers
+        return [{"m": "addi", "rd": rx, "rs1": 0, "imm": rx}, {"m": rng.choice(["sll", "srl", "sra", "add", "sub", "mul"]), "rd": ry, "rs1": rz, "rs2": rx}, {"m": rng.choice(SH), "rd": rz, "rs1": ry, "imm": rng.choice([rx, ry, rz])}]
+    if k == 4:
+        # the pc as a value: auipc, then arithmetic/compare with a register holding the same number
+        return [{"m": "auipc", "rd": rx, "imm": 0}, {"m": "addi", "rd": ry, "rs1": rx, "imm": rng.choice([0, 4, 8])}, {"m": rng.choice(["sub", "xor", "sltu", "slt"]), "rd": rz, "rs1": ry, "rs2": rx}]
+    if k == 5:
+        # the very same load twice in a row, and once more after an unrelated store
+        ld = {"m": rng.choice(LD), "rd": ry, "rs1": 31, "imm": off}
+        return [ld, dict(ld, rd=rz), {"m": "sw", "rs1": 31, "rs2": rx, "imm": (off + 8) % 64}, dict(ld, rd=rx)]
+    if k == 6:
+        # equal operands: x op x, branch on a register with itself
+        m = rng.choice(["sub", "xor", "and", "or", "slt", "sltu", "div", "rem", "divu", "remu", "mulh", "mulhsu"])
+        return [{"m": m, "rd": ry, "rs1": rx, "rs2": rx}, {"m": rng.choice(BRM), "rs1": ry, "rs2": ry, "imm": 8}, {"m": "addi", "rd": rz, "rs1": rz, "imm": 1}]
+    if k == 7:
+        # byte / half stores of 0 and of 0x80.. into a word, sign-extending loads of each lane
+        lane = rng.choice([0, 1, 2, 3])
+        return [{"m": "addi", "rd": rx, "rs1": 0, "imm": rng.choice([0, -128, 0x80, 0xFF, -1])}, {"m": "sb", "rs1": 31, "rs2": rx, "imm": off + lane}, {"m": "lb", "rd": ry, "rs1": 31, "imm": off + lane}, {"m": "lbu", "rd": rz, "rs1": 31, "imm": off + lane}, {"m": "lh" if aligned else "lhu", "rd": rx, "rs1": 31, "imm": off + (lane & 2)}]
+    # store data register == base register (sw x31-like): the address is stored into itself
+    return [{"m": "addi", "rd": rx, "rs1": 31, "imm": off}, {"m": rng.choice(["sw", "sh", "sb"]), "rs1": rx, "rs2": rx, "imm": 0}, {"m": "lw", "rd": ry, "rs1": rx, "imm": 0}]
+
+
 def soup_program(rng, n, aligned=True, ecall=True, jalr=True, pool=None, mem_w=0.12, window=64):
     """dense random instruction soup: local branches/jumps (distance <= 5), dependencies at every distance."""
     pool = pool or POOL
@@ -238,7 +275,7 @@ def soup_regs(rng, pool=None, bad_ecall=0.15):
     regs = {}
     for r in pool:
         if r:
-            regs[str(r)] = rng.choice([0, 1, 2, M32, 0x80000000, 0x7FFFFFFF, rng.getrandbits(32), 10, 17, 4, 93, 11, 34])
+            regs[str(r)] = rng.choice([0, 1, 2, M32, 0x80000000, 0x7FFFFFFF, rng.getrandbits(32), 10, 17, 4, 93, 11, 34, r, 4 * r])
     regs["17"] = rng.choice(ECALL_CODES) if rng.random() > bad_ecall else rng.choice([0, 5, 12])
     regs["10"] = rng.choice([0, 1, 0x4000, 0x4010, 65, M32, rng.getrandbits(32)])
     regs["31"] = rng.choice([0x4000, 0x4000, 0x4040, 0x5000, 0x4000, 0x7FFFFFE0, 0x80000000, 0xFFFFFF80, 0xFFFFFFC0])
@@ -257,8 +294,10 @@ def structured_program(rng, size=30, aligned=True, faults=False):
         out = []
         while len(out) < k:
             r = rng.random()
-            if r < 0.4:
+            if r < 0.36:
                 out.append(_alu(rng, work))
+            elif r < 0.4:
+                out += _coincidence(rng, work, aligned)
             elif r < 0.52:
                 out.append(_memop(rng, work, aligned))
             elif r < 0.56:
